@@ -226,4 +226,29 @@ def P.SymFrameSpec (p : P) (t : Nat) (a : AddrSpec) (name : Option Nat) (nsym : 
 def decodeStack (s : SerProfile) (t : SerThread) (i : Nat) : Option (List FrameDesc) :=
   (walk t.stPrefix t.stFrame (i + 1) i).bind (mapM' (decodeFrame s t))
 
+/-- the caller-side rule for pid / tid strings (profile.rs:308-320 as the caller sees it): the `k`-th reuse
+(`k ≥ 1`) of a numeric pid / tid carries the suffix `.k`; a thread's tid is the one assigned last
+(`add_thread`, then every `set_thread_tid`). State: the numeric ids used so far, the `(id, suffix)` of every
+process handle and of every thread handle. -/
+structure IdSpec where
+  pidUses : List Nat := []
+  tidUses : List Nat := []
+  pids : List IdStr := []
+  tids : List IdStr := []
+deriving Repr
+
+def IdSpec.step (s : IdSpec) : Op → IdSpec
+  | .addProcess pid _ _ => { s with pidUses := pid :: s.pidUses, pids := s.pids ++ [(pid, s.pidUses.count pid)] }
+  | .addThread proc tid _ _ =>
+    if proc < s.pids.length then
+      { s with tidUses := tid :: s.tidUses, tids := s.tids ++ [(tid, s.tidUses.count tid)] }
+    else s
+  | .setTid t tid =>
+    if t < s.tids.length then
+      { s with tidUses := tid :: s.tidUses, tids := s.tids.modify t (fun _ => (tid, s.tidUses.count tid)) }
+    else s
+  | _ => s
+
+def idSpec (ops : List Op) : IdSpec := ops.foldl IdSpec.step {}
+
 end PT
